@@ -344,3 +344,206 @@ TECHNIQUE = {
     'C12': 'static analysis: nullness / partial-operation analysis with exception flow (nullflow)',
     'C13': 'static analysis: provenance taint analysis, sanitiser = copy.deepcopy (mergeflow)',
 }
+
+
+# ======================================================================= C15 / C17 / C20 / C08 / C07 / C14
+READS_OWN_TAG = {
+    'Story.id': ('story', 'storyID'), 'Story.slug': ('story', 'storySlug'), 'Item.id': ('item', 'itemID'),
+    'Item.slug': ('item', 'itemSlug'), 'Item.type': ('item', 'objType'), 'Item.object_id': ('item', 'objID'),
+    'Item.mos_id': ('item', 'mosID'), 'RunningOrder.ro_slug': ('roCreate', 'roSlug'), 'RunningOrder.ro_id': ('roCreate', 'roID'),
+    'RunningOrder.message_id': ('#root', 'messageID'), 'RunningOrder.start_time': ('roCreate', 'roEdStart'),
+    'Story.start_time': ('mosPayload', 'StoryStarted'), 'Story.end_time': ('mosPayload', 'StoryEnded'),
+    'Story.duration': ('mosPayload', 'StoryDuration'),
+}
+SIMPLE_GETTERS = {'Story.id', 'Story.slug', 'Item.id', 'Item.slug', 'Item.type', 'Item.object_id', 'Item.mos_id'}
+LISTINGS = ['RunningOrder.stories', 'RunningOrder.script', 'RunningOrder.body', 'Story.items', 'Story.script', 'Story.body']
+ORDER_BREAKERS = ('sorted', 'reversed', 'set', 'sort', 'reverse', 'frozenset')
+
+
+def null_one(res, repo, kind, name=None):
+    out = [r for r in collect_null(res, repo, (kind,)) if name is None or r['name'] == name]
+    if not out:
+        res.error(f'analysis job {kind}:{name or "*"} produced no result')
+    return out
+
+
+def order_pipe(res: CheckResult, acc: dict, names):
+    for name in names:
+        info = acc['listings'].get(name)
+        if info is None:
+            res.error(f'anchor vanished or not a list: listing accessor {name}')
+            continue
+        bad = [s for s in info['stages'] if s in ORDER_BREAKERS]
+        ok = info['ordered'] and not bad
+        res.add('ORDER-PIPE', name, 'pipeline ' + ' -> '.join(x for x in info['stages'] if not x.startswith('map:'))[:160], ok,
+                '' if ok else f'the listing is not an order-preserving pipeline over the document (stages {info["stages"]})')
+
+
+def prop_C15(repo, tier):
+    res = CheckResult('C15', tier)
+    res.rules = {'NO-BUILTIN-ESCAPE': RULES['NO-BUILTIN-ESCAPE'],
+                 'ORDER-PIPE': 'each listing is findall/child iteration -> comprehension/chain -> list with no order-destroying stage',
+                 'READS-OWN-TAG': 'each id/slug/metadata getter reads the tag the documentation assigns to it (and the simple getters read nothing else)'}
+    accs = null_one(res, repo, 'accessors')
+    if accs:
+        acc = accs[0]
+        for entry in acc['checked']:
+            res.add('NO-BUILTIN-ESCAPE', entry, 'all presence combinations of optional tags', True)
+        for f in acc['findings']:
+            res.add(f['rule'], f['func'], f['construct'], False, f['detail'], f['file'], f['line'], f['witness'])
+        order_pipe(res, acc, LISTINGS)
+        for entry, (ptag, tag) in READS_OWN_TAG.items():
+            reads = [tuple(x) for x in acc['reads'].get(entry, [])]
+            if entry not in acc['checked']:
+                res.error(f'anchor vanished: accessor {entry}')
+                continue
+            ok = (ptag, tag, 'direct') in reads
+            detail = '' if ok else f'{entry} never reads <{tag}> under <{ptag}>; it reads {reads}'
+            if ok and entry in SIMPLE_GETTERS:
+                extra = [r for r in reads if r != (ptag, tag, 'direct')]
+                if extra:
+                    ok, detail = False, f'{entry} also depends on {extra}'
+            res.add('READS-OWN-TAG', entry, f'reads <{ptag}>/<{tag}>', ok, detail)
+        res.extra['functions_analysed'] = len(acc['functions'])
+    res.floors = {'NO-BUILTIN-ESCAPE': 30, 'ORDER-PIPE': 6, 'READS-OWN-TAG': 14}
+    res.explanation = (
+        'Static nullness/exception-flow analysis of every public read accessor of RunningOrder, Story and Item (and __str__/__repr__/'
+        'inspect) over a symbolic reachable running order in which every optional tag may be present or absent (the interpreter forks '
+        'on each optional find) and storyID/itemID are present: no exceptional exit exists. Listings are order-preserving pipelines '
+        'over the document (ORDER-PIPE) and each getter reads its documented tag (READS-OWN-TAG). NOT decided: that returned values '
+        'equal the XML for every document (runtime equality).')
+    res.assumptions = ASSUME + ['present optional value tags (StoryDuration, TextTime, roEdStart, ...) carry well-formed text']
+    res.trusted_base = TRUSTED
+    return res
+
+
+def prop_C17(repo, tier):
+    res = CheckResult('C17', tier)
+    res.rules = {'ORDER-PIPE': 'script/body are order-preserving pipelines over the story children / the stories',
+                 'BODY-MAP': 'body keeps exactly the p and item children: items as Item objects, paragraphs as text with None mapped to the empty string',
+                 'NOTE-TABLE': 'decision table of the script filter over the finite string abstraction equals: kept iff non-blank and not wrapped in () or <>; kept value is the stripped text'}
+    accs = null_one(res, repo, 'accessors')
+    if accs:
+        acc = accs[0]
+        order_pipe(res, acc, ['Story.script', 'Story.body', 'RunningOrder.script', 'RunningOrder.body'])
+        body = acc['listings'].get('Story.body')
+        if body:
+            elems = body['elements']
+            has_item = any(e.startswith('Item(') for e in elems)
+            has_text = any(e.endswith('.text') for e in elems)
+            has_empty = "''" in elems
+            no_none = not any(e.startswith('None') for e in elems)
+            ok = has_item and has_text and has_empty and no_none
+            res.add('BODY-MAP', 'Story.body', 'element kinds of the body listing', ok,
+                    '' if ok else f'body elements are {elems}: expected Item objects, paragraph text and the empty string, never None')
+            kinds = lambda es: {('Item' if e.startswith('Item(') else 'text' if e.endswith('.text') else e) for e in es}   # noqa: E731
+            ro_body = acc['listings'].get('RunningOrder.body', {}).get('elements', [])
+            res.add('BODY-MAP', 'RunningOrder.body', 'concatenation of the stories\' bodies', kinds(ro_body) == kinds(elems),
+                    '' if kinds(ro_body) == kinds(elems) else f'running-order body elements {ro_body} differ from story body elements {elems}')
+            ro_script = acc['listings'].get('RunningOrder.script', {}).get('elements', [])
+            st_script = acc['listings'].get('Story.script', {}).get('elements', [])
+            res.add('BODY-MAP', 'RunningOrder.script', 'concatenation of the stories\' scripts', kinds(ro_script) == kinds(st_script),
+                    '' if kinds(ro_script) == kinds(st_script) else f'{ro_script} vs {st_script}')
+        for f in acc['findings']:
+            if f['func'].split('.')[-1] in ('script', 'body', '_is_technical_note', '_get_tag_text'):
+                res.add('NO-BUILTIN-ESCAPE', f['func'], f['construct'], False, f['detail'], f['file'], f['line'], f['witness'])
+    for nt in null_one(res, repo, 'notetable'):
+        for row in nt['rows']:
+            got = [tuple(x) for x in row['got']]
+            if any(g[0] == 'unrecognised' for g in got):
+                res.error(f'NOTE-TABLE: text {row["text"]!r} is processed by a string operation outside the finite abstraction: {got}')
+                continue
+            ok = got == [('kept', row['expected'])]
+            res.add('NOTE-TABLE', 'Story.script', f'text={row["text"]!r}', ok,
+                    '' if ok else f'script yields {got} for paragraph text {row["text"]!r}; the specification says {row["expected"]!r}')
+    res.floors = {'ORDER-PIPE': 4, 'BODY-MAP': 3, 'NOTE-TABLE': 20}
+    res.explanation = (
+        'Static analysis: (1) ORDER-PIPE/BODY-MAP from the abstract evaluation of Story.body/script and RunningOrder.body/script; '
+        '(2) NOTE-TABLE: the script filter together with _is_technical_note is evaluated by the abstract interpreter on one literal '
+        'representative per class of the finite string abstraction the code can distinguish (None/empty/blank; first-char class x '
+        'last-char class; surrounding whitespace), folding str.strip/startswith/endswith on literals; the resulting 21-row decision '
+        'table must equal the specification. NOT decided: Unicode behaviour of str.strip; paragraphs with inline children.')
+    res.assumptions = ['the script filter touches paragraph text only through truthiness, strip, startswith, endswith (otherwise the check reports analysis-broken)']
+    res.trusted_base = TRUSTED
+    return res
+
+
+def prop_C20(repo, tier):
+    res = CheckResult('C20', tier)
+    res.rules = {'ENUM-PER-ID': RULES['ENUM-PER-ID'], 'ID-FALLBACK': RULES['ID-FALLBACK'], 'INSPECT-TOTAL': RULES['INSPECT-TOTAL'],
+                 'ACCESSOR-ROLE': 'each accessor reads the container the MOS role table assigns (element_target vs element_source, first vs remaining IDs, carried elements wrapped as themselves)',
+                 'ACCESSOR-TOTAL': 'no exposed accessor (or the .id of an exposed element) raises for a schema-shaped message',
+                 'INSPECT-SOURCES': 'inspect() prints the id of every element of every source accessor of its class',
+                 'INSPECT-LABEL': 'no two print statements of one inspect() print the same single ID under different labels'}
+    results = collect_merge(res, repo)
+    add_sites(res, results, 'explicit-id', 'ID-FALLBACK')
+    add_findings(res, results, {'ENUM-PER-ID', 'ID-FALLBACK'})
+    from . import schema as sch
+    macc = {r['name']: r for r in null_one(res, repo, 'msgaccessors')}
+    insp = {r['name']: r for r in null_one(res, repo, 'inspect')}
+    for cname, spec in sch.ACCESSOR_ROLES.items():
+        r = macc.get(cname)
+        if r is None:
+            res.error(f'anchor vanished: message class {cname}')
+            continue
+        for f in r['findings']:
+            res.add(f['rule'], f['func'], f['construct'], False, f['detail'], f['file'], f['line'], f['witness'])
+        for acc_name, steps in spec.items():
+            got = r['accessors'].get(acc_name)
+            if got is None:
+                res.error(f'anchor vanished: accessor {cname}.{acc_name}')
+                continue
+            norm_ = lambda st_: [('element_source', 'first') if tuple(x) == ('element_source', 'each') else tuple(x) for x in st_]   # noqa: E731
+            ids = [norm_(x) for x in got['ids']]
+            ok = bool(ids) and all(x == list(steps) for x in ids) and got['ordered']
+            res.add('ACCESSOR-ROLE', f'{cname}.{acc_name}', 'id provenance ' + ' / '.join(f'{t}:{s}' for t, s in steps), ok,
+                    '' if ok else f'exposed ids come from {ids} (ordered={got["ordered"]}); the role table says {list(steps)}')
+            plural = 'plural' in got['kind']
+            res.add('ENUM-PER-ID', f'{cname}.{acc_name}', 'one element per ' + ('named ID / carried element' if plural else 'reference'), True)
+        ir = insp.get(cname)
+        if ir is None:
+            res.error(f'anchor vanished: {cname}.inspect')
+            continue
+        res.add('INSPECT-TOTAL', f'{cname}.inspect', 'all exits of inspect()', True)
+        for f in ir['findings']:
+            res.add(f['rule'], f['func'], f['construct'], False, f['detail'], f['file'], f['line'], f['witness'])
+        printed = [([tuple(x) for x in stp], p['construct']) for p in ir['prints'] for stp in p['id_steps']]
+        sources = (set(spec) & sch.SOURCE_ACCESSORS) | sch.SOURCE_ACCESSORS_BY_CLASS.get(cname, set())
+        for acc_name in sorted(sources & set(spec)):
+            want = list(spec[acc_name])
+            ok = any([('element_source', 'first') if x == ('element_source', 'each') else x for x in stp] == want for stp, _ in printed)
+            res.add('INSPECT-SOURCES', f'{cname}.inspect', f'mentions the ids of {acc_name}', ok,
+                    '' if ok else f'inspect() never prints an id with provenance {want} (source accessor {acc_name})')
+        single = {}
+        for stp, cons in printed:
+            if all(sel != 'each' and not sel.startswith('each') for _, sel in stp):
+                single.setdefault(tuple(stp), set()).add(cons)
+        dup = {k: v for k, v in single.items() if len(v) > 1}
+        res.add('INSPECT-LABEL', f'{cname}.inspect', 'distinct labels print distinct ids', not dup,
+                '' if not dup else '; '.join(f'{sorted(v)} all print {list(k)}' for k, v in dup.items()))
+    for cname in ('RunningOrderReplace', 'RunningOrderEnd', 'MetaDataReplace', 'ReadyToAir', 'RunningOrder'):
+        ir = insp.get(cname)
+        if ir is None:
+            res.error(f'anchor vanished: {cname}.inspect')
+            continue
+        res.add('INSPECT-TOTAL', f'{cname}.inspect', 'all exits of inspect()', True)
+        for f in ir['findings']:
+            res.add(f['rule'], f['func'], f['construct'], False, f['detail'], f['file'], f['line'], f['witness'])
+    res.floors = {'ACCESSOR-ROLE': 40, 'INSPECT-TOTAL': 25, 'INSPECT-SOURCES': 15, 'INSPECT-LABEL': 20}
+    res.explanation = (
+        'Static analysis of every message class: the abstract interpreter evaluates each public accessor on a symbolic schema-shaped '
+        'message and reads off the provenance of the ids it exposes (container, first/each/n-th, slice); this must equal the MOS role '
+        'table (ACCESSOR-ROLE), enumerate per ID (ENUM-PER-ID), never substitute another ID for a blank one (ID-FALLBACK); inspect() has '
+        'no exceptional exit with element texts possibly None (INSPECT-TOTAL), prints every source accessor\'s ids (INSPECT-SOURCES) and '
+        'does not print one ID under two labels (INSPECT-LABEL). NOT decided: the exact printed text / value equality with the message.')
+    res.assumptions = ASSUME
+    res.trusted_base = TRUSTED
+    return res
+
+
+PROPS.update({'C15': prop_C15, 'C17': prop_C17, 'C20': prop_C20})
+TECHNIQUE.update({
+    'C15': 'static analysis: nullness / exception-flow abstract interpretation of the accessors (nullflow)',
+    'C17': 'static analysis: pipeline shape + finite decision table by literal folding (nullflow/predtable)',
+    'C20': 'static analysis: provenance of exposed ids vs. role table; exception flow of inspect() (nullflow)',
+})
